@@ -338,19 +338,29 @@ fn ix_data(name: &str, val: u64, afc: &[u64; 7]) -> (Vec<u8>, String) {
             format!("afc {} {} {} {} {} {} {} {}", TS, afc[0], afc[1], afc[2], afc[3], afc[4], afc[5], afc[6]),
         ),
         "SetFeeRateByDelegatedFeeAuthority" => (ix::SetFeeRateByDelegatedFeeAuthority { fee_rate: v16 }.data(), format!("fee {}", v16)),
-        "SetAdaptiveFeeConstants" => (
-            ix::SetAdaptiveFeeConstants {
-                filter_period: Some(afc[0] as u16),
-                decay_period: Some(afc[1] as u16),
-                reduction_factor: Some(afc[2] as u16),
-                adaptive_fee_control_factor: Some(afc[3] as u32),
-                max_volatility_accumulator: Some(afc[4] as u32),
-                tick_group_size: Some(afc[5] as u16),
-                major_swap_threshold_ticks: Some(afc[6] as u16),
-            }
-            .data(),
-            format!("afc {} {} {} {} {} {} {} {}", TS, afc[0], afc[1], afc[2], afc[3], afc[4], afc[5], afc[6]),
-        ),
+        "SetAdaptiveFeeConstants" => {
+            // every argument is optional (None = keep the pool's value): `val` chooses which are given (odd values: all);
+            // the bound descriptor carries the constants that RESULT, or `afcsame` when nothing changes (refused)
+            let mask = if val % 2 == 1 { 0x7f } else { (val / 2) % 128 };
+            let existing: [u64; 7] = [30, 600, 5000, 4000, 350_000, TS as u64, TS as u64];
+            let some = |i: usize| mask & (1 << i) != 0;
+            let upd: Vec<u64> = (0..7).map(|i| if some(i) { afc[i] } else { existing[i] }).collect();
+            let o16 = |i: usize| if some(i) { Some(afc[i] as u16) } else { None };
+            let o32 = |i: usize| if some(i) { Some(afc[i] as u32) } else { None };
+            (
+                ix::SetAdaptiveFeeConstants {
+                    filter_period: o16(0),
+                    decay_period: o16(1),
+                    reduction_factor: o16(2),
+                    adaptive_fee_control_factor: o32(3),
+                    max_volatility_accumulator: o32(4),
+                    tick_group_size: o16(5),
+                    major_swap_threshold_ticks: o16(6),
+                }
+                .data(),
+                if upd[..] == existing[..] { "afcsame".to_string() } else { format!("afc {} {} {} {} {} {} {} {}", TS, upd[0], upd[1], upd[2], upd[3], upd[4], upd[5], upd[6]) },
+            )
+        }
         "SetConfigFeatureFlag" => (ix::SetConfigFeatureFlag { feature_flag: ConfigFeatureFlag::TokenBadge(val % 2 == 1) }.data(), "none".to_string()),
         "SetConfigExtensionAuthority" => (ix::SetConfigExtensionAuthority {}.data(), "none".to_string()),
         "SetTokenBadgeAuthority" => (ix::SetTokenBadgeAuthority {}.data(), "none".to_string()),
@@ -523,6 +533,7 @@ pub fn expand(line: &str) -> Option<(String, Box<dyn FnOnce(&mut Ctx) -> String>
         match bt[0] {
             "fee" => bt[1].parse::<u64>().unwrap() <= 60_000,
             "proto" => bt[1].parse::<u64>().unwrap() <= 2_500,
+            "afcsame" => false,
             "afc" => {
                 let n: Vec<u64> = bt[1..].iter().map(|x| x.parse().unwrap()).collect();
                 let (ts, fp, dp, rf, cf, mx, gs, mj) = (n[0], n[1], n[2], n[3], n[4], n[5], n[6], n[7]);
@@ -559,6 +570,54 @@ pub fn expand(line: &str) -> Option<(String, Box<dyn FnOnce(&mut Ctx) -> String>
                             _ => "the account to change belongs to another config",
                         }
                     ));
+                }
+                // the value asked for is the value stored (value-carrying setters; variation 0 = everything right)
+                if variation == 0 {
+                    if let Some(tkey) = target.as_ref().and_then(|t| slots.get(t)) {
+                        let d = bank.data(tkey);
+                        let v16 = v as u16;
+                        let stored: Option<(u64, u64)> = match name.as_str() {
+                            "SetFeeRate" | "SetFeeRateByDelegatedFeeAuthority" => Whirlpool::try_deserialize(&mut &d[..]).ok().map(|w| (w.fee_rate as u64, v16 as u64)),
+                            "SetProtocolFeeRate" => Whirlpool::try_deserialize(&mut &d[..]).ok().map(|w| (w.protocol_fee_rate as u64, v16 as u64)),
+                            "SetDefaultFeeRate" => FeeTier::try_deserialize(&mut &d[..]).ok().map(|w| (w.default_fee_rate as u64, v16 as u64)),
+                            "SetDefaultProtocolFeeRate" => WhirlpoolsConfig::try_deserialize(&mut &d[..]).ok().map(|w| (w.default_protocol_fee_rate as u64, v16 as u64)),
+                            "SetDefaultBaseFeeRate" => AdaptiveFeeTier::try_deserialize(&mut &d[..]).ok().map(|w| (w.default_base_fee_rate as u64, v16 as u64)),
+                            _ => None,
+                        };
+                        if let Some((got, want)) = stored {
+                            if got != want {
+                                ctx.viol(format!("C19/C04 {} stored {} where {} was asked for", name, got, want));
+                            }
+                            ctx.tag("stored_value_checked");
+                        }
+                        if name == "SetAdaptiveFeeConstants" || name == "SetPresetAdaptiveFeeConstants" {
+                            let bt = toks(&bound_c);
+                            if bt[0] == "afc" {
+                                let n: Vec<u64> = bt[2..].iter().map(|x| x.parse().unwrap()).collect();
+                                let got: Option<Vec<u64>> = if name == "SetAdaptiveFeeConstants" {
+                                    if d.len() >= 8 + std::mem::size_of::<Oracle>() {
+                                        let o: &Oracle = bytemuck::from_bytes(&d[8..8 + std::mem::size_of::<Oracle>()]);
+                                        let c = o.adaptive_fee_constants;
+                                        let vv = o.adaptive_fee_variables;
+                                        if { vv.volatility_accumulator } != 0 || { vv.volatility_reference } != 0 || { vv.last_reference_update_timestamp } != 0 || { vv.last_major_swap_timestamp } != 0 || { vv.tick_group_index_reference } != 0 {
+                                            ctx.viol("C14/C19 SetAdaptiveFeeConstants did not reset the adaptive-fee variables".to_string());
+                                        }
+                                        Some(vec![{ c.filter_period } as u64, { c.decay_period } as u64, { c.reduction_factor } as u64, { c.adaptive_fee_control_factor } as u64, { c.max_volatility_accumulator } as u64, { c.tick_group_size } as u64, { c.major_swap_threshold_ticks } as u64])
+                                    } else {
+                                        None
+                                    }
+                                } else {
+                                    AdaptiveFeeTier::try_deserialize(&mut &d[..]).ok().map(|a| vec![a.filter_period as u64, a.decay_period as u64, a.reduction_factor as u64, a.adaptive_fee_control_factor as u64, a.max_volatility_accumulator as u64, a.tick_group_size as u64, a.major_swap_threshold_ticks as u64])
+                                };
+                                if let Some(g) = got {
+                                    if g != n {
+                                        ctx.viol(format!("C19 {} stored the constants {:?} where {:?} result from the request", name, g, n));
+                                    }
+                                    ctx.tag("stored_constants_checked");
+                                }
+                            }
+                        }
+                    }
                 }
                 // exactly the targeted account changed
                 for (key, a) in bank.accts.iter() {
